@@ -31,6 +31,8 @@ enum Task {
     Join(usize, Box<Task>),
     AbortT(usize, Box<Task>),
     Yield(u64, Box<Task>),
+    Both(u64, Expr, usize, u64, Expr, usize, Box<Task>),
+    Race(u64, Expr, u64, Expr, usize, Box<Task>),
 }
 #[derive(Clone, Debug)]
 enum Cmd {
@@ -64,12 +66,15 @@ impl Task {
             Task::Join(h, k) => format!("(TJoin {} {})", h, k.coq()),
             Task::AbortT(h, k) => format!("(TAbortT {} {})", h, k.coq()),
             Task::Yield(n, k) => format!("(TYield {} {})", n, k.coq()),
+            Task::Both(t1, e1, x1, t2, e2, x2, k) => format!("(TBoth {} {} {} {} {} {} {})", t1, e1.coq(), x1, t2, e2.coq(), x2, k.coq()),
+            Task::Race(t1, e1, t2, e2, x, k) => format!("(TRace {} {} {} {} {} {})", t1, e1.coq(), t2, e2.coq(), x, k.coq()),
         }
     }
     fn size(&self) -> usize {
         match self {
             Task::Ret => 1,
             Task::Emit(_, _, k) | Task::Notify(_, _, k) | Task::Req(_, _, _, k) | Task::Join(_, k) | Task::AbortT(_, k) | Task::Yield(_, k) => 1 + k.size(),
+            Task::Both(_, _, _, _, _, _, k) | Task::Race(_, _, _, _, _, k) => 2 + k.size(),
             Task::ForEach(_, _, _, b, k) | Task::Spawn(b, _, k) => 1 + b.size() + k.size(),
         }
     }
@@ -78,6 +83,7 @@ impl Task {
             Task::Ret => ("TRet", vec![]), Task::Emit(_, _, k) => ("TEmit", vec![k]), Task::Notify(_, _, k) => ("TNotify", vec![k]),
             Task::Req(_, _, _, k) => ("TReq", vec![k]), Task::ForEach(_, _, _, b, k) => ("TForEach", vec![b, k]),
             Task::Spawn(b, _, k) => ("TSpawn", vec![b, k]), Task::Join(_, k) => ("TJoin", vec![k]), Task::AbortT(_, k) => ("TAbortT", vec![k]), Task::Yield(_, k) => ("TYield", vec![k]),
+            Task::Both(_, _, _, _, _, _, k) => ("TBoth", vec![k]), Task::Race(_, _, _, _, _, k) => ("TRace", vec![k]),
         };
         *h.entry(name).or_default() += 1;
         for s in subs { s.hist(h); }
@@ -199,6 +205,20 @@ fn exec<'a>(t: &'a Task, env: &'a mut Env, ctx: &'a Ctx) -> BoxFuture<'a, ()> {
                 Task::Join(h, k) => { if let Some(jh) = env.handles.get(h) { let f = (jh.join)(); f.await; } cur = k; }
                 Task::AbortT(h, k) => { if let Some(jh) = env.handles.get(h) { (jh.abort)(); } cur = k; }
                 Task::Yield(n, k) => { YieldN(*n).await; cur = k; }
+                Task::Both(t1, e1, x1, t2, e2, x2, k) => {
+                    let f1 = ctx.request_from_shell(Op { tag: *t1, val: e1.eval(&env.vars) });
+                    let f2 = ctx.request_from_shell(Op { tag: *t2, val: e2.eval(&env.vars) });
+                    let (a, b) = futures::join!(f1, f2);
+                    env.set(*x1, a); env.set(*x2, b); cur = k;
+                }
+                Task::Race(t1, e1, t2, e2, x, k) => {
+                    let out = {
+                        let mut f1 = ctx.request_from_shell(Op { tag: *t1, val: e1.eval(&env.vars) }).fuse();
+                        let mut f2 = ctx.request_from_shell(Op { tag: *t2, val: e2.eval(&env.vars) }).fuse();
+                        futures::select_biased! { a = f1 => a, b = f2 => b }
+                    };
+                    env.set(*x, out); cur = k;
+                }
             }
         }
     }.boxed()
@@ -247,7 +267,13 @@ impl Gen {
         if *budget <= 0 { return Task::Ret; }
         let r = self.rng.below(100);
         match r {
-            0..=17 => Task::Ret,
+            0..=13 => Task::Ret,
+            14..=15 => { let t1 = self.tag(); let t2 = self.tag(); let e1 = self.expr(nvars); let e2 = self.expr(nvars);
+                    let x1 = (self.rng.below((nvars as u64 + 1).min(7))) as usize; let x2 = x1 + 1; *budget -= 1;
+                    Task::Both(t1, e1, x1, t2, e2, x2, Box::new(self.task(budget, nvars.max(x2 + 1), handles, depth))) }
+            16..=17 => { let t1 = self.tag(); let t2 = self.tag(); let e1 = self.expr(nvars); let e2 = self.expr(nvars);
+                    let x = (self.rng.below((nvars as u64 + 1).min(8))) as usize; *budget -= 1;
+                    Task::Race(t1, e1, t2, e2, x, Box::new(self.task(budget, nvars.max(x + 1), handles, depth))) }
             18..=37 => { let t = self.evtag(); let e = self.expr(nvars); Task::Emit(t, e, Box::new(self.task(budget, nvars, handles, depth))) }
             38..=45 => { let t = self.tag(); let e = self.expr(nvars); Task::Notify(t, e, Box::new(self.task(budget, nvars, handles, depth))) }
             46..=63 => { let t = self.tag(); let e = self.expr(nvars); let x = (self.rng.below((nvars as u64 + 1).min(8))) as usize;
@@ -261,7 +287,13 @@ impl Gen {
                          Task::Spawn(Box::new(child), h, Box::new(self.task(budget, nvars, handles, depth))) }
             84..=90 if !handles.is_empty() => { let h = *self.rng.pick(handles); Task::Join(h, Box::new(self.task(budget, nvars, handles, depth))) }
             91..=95 if !handles.is_empty() => { let h = *self.rng.pick(handles); Task::AbortT(h, Box::new(self.task(budget, nvars, handles, depth))) }
-            96..=99 => { let n = 1 + self.rng.below(2); Task::Yield(n, Box::new(self.task(budget, nvars, handles, depth))) }
+            96..=97 => { let n = 1 + self.rng.below(2); Task::Yield(n, Box::new(self.task(budget, nvars, handles, depth))) }
+            98 => { let t1 = self.tag(); let t2 = self.tag(); let e1 = self.expr(nvars); let e2 = self.expr(nvars);
+                    let x1 = (self.rng.below((nvars as u64 + 1).min(7))) as usize; let x2 = x1 + 1; *budget -= 1;
+                    Task::Both(t1, e1, x1, t2, e2, x2, Box::new(self.task(budget, nvars.max(x2 + 1), handles, depth))) }
+            99 => { let t1 = self.tag(); let t2 = self.tag(); let e1 = self.expr(nvars); let e2 = self.expr(nvars);
+                    let x = (self.rng.below((nvars as u64 + 1).min(8))) as usize; *budget -= 1;
+                    Task::Race(t1, e1, t2, e2, x, Box::new(self.task(budget, nvars.max(x + 1), handles, depth))) }
             _ => { let t = self.evtag(); let e = self.expr(nvars); Task::Emit(t, e, Box::new(self.task(budget, nvars, handles, depth))) }
         }
     }
